@@ -665,6 +665,7 @@ void executeRun(const Desc& d, Obs& o) {
         for (size_t i = 0; i < rm.size(); i++) if (reg.getPluginByName(d.groups[(size_t)RS.pluginGroups[rm[i]]].sarg(0)) != 0) o.removedStillFound++;
     }
 
+    bool runnerThrew = false;
     Vec<Str> av; buildArgv(d, av);
     Vec<const char*> avp; for (size_t i = 0; i < av.size(); i++) avp.push_back(av[i].c_str());
     if (d.pi("via_api") && d.pi("output") == 0) {
@@ -722,13 +723,14 @@ void executeRun(const Desc& d, Obs& o) {
         SimRunner runner((int)avp.size(), avp.data(), &reg);
 #if CPPUTEST_HAVE_EXCEPTIONS
         try { o.ret = runner.runAllTestsMain(); }
-        catch (...) { o.ret = -12345; o.wrapperProblems += "an exception left the runner although its command line says that exceptions are not passed on (what an earlier invocation had set survived); "; }
+        catch (...) { if (PS.inChild) throw;      /* a forked child in which something threw outside the test phases ends as it always did (std::terminate); it never carries on as the simulator */
+            runnerThrew = true; o.ret = -12345; o.wrapperProblems += "an exception left the runner although its command line says that exceptions are not passed on (what an earlier invocation had set survived); "; }
 #else
         o.ret = runner.runAllTestsMain();
 #endif
     }
     if (o.ret == 0) o.finalReport = normalizeAddrs(leak->FinalReport(0));
-    reg.removePluginByName(DEF_PLUGIN_MEM_LEAK);
+    if (!runnerThrew) reg.removePluginByName(DEF_PLUGIN_MEM_LEAK);      // (after an exception unwound the runner, the chain still names plugins that lived on the runner's stack: it is dropped without being walked)
     reg.resetPlugins();
     savedReg->setCurrentRegistry(0);
     (void)savedReg;
